@@ -9,6 +9,7 @@ import (
 	"math/rand/v2"
 	"net"
 	"net/netip"
+	"os"
 	"strings"
 	"sync"
 	"time"
@@ -27,17 +28,20 @@ const upsTimeout = 150 * time.Millisecond
 type server struct {
 	port int
 
-	mu        sync.Mutex
-	udp       *net.UDPConn
-	tcp       *net.TCPListener
-	conns     map[net.Conn]struct{}
-	ukind     string
-	tkind     string
-	tokU      int
-	tokT      int
-	onProbe   func()
-	lastSentU []byte
-	wg        sync.WaitGroup
+	mu    sync.Mutex
+	udp   *net.UDPConn
+	tcp   *net.TCPListener
+	conns map[net.Conn]struct{}
+	ukind string
+	tkind string
+	// closeFirst: close the next TCP connection that carries a request
+	// without answering, once (wire modifier c1).
+	closeFirst bool
+	tokU       int
+	tokT       int
+	onProbe    func()
+	lastSentU  []byte
+	wg         sync.WaitGroup
 }
 
 func newServer(rng *rand.Rand) (s *server) {
@@ -121,6 +125,7 @@ func (s *server) close() {
 func (s *server) set(ukind, tkind string, tokU, tokT int) {
 	s.mu.Lock()
 	s.ukind, s.tkind, s.tokU, s.tokT = ukind, tkind, tokU, tokT
+	s.closeFirst = kindHas(tkind, "c1")
 	s.mu.Unlock()
 	retry := func(open func() error) {
 		for i := 0; ; i++ {
@@ -159,7 +164,7 @@ func (s *server) serveUDP(c *net.UDPConn) {
 		s.mu.Lock()
 		kind, tok, onProbe := s.ukind, s.tokU, s.onProbe
 		s.mu.Unlock()
-		if req.Question[0].Name == probeName && onProbe != nil {
+		if isProbeName(req.Question[0].Name) && onProbe != nil {
 			onProbe()
 		}
 		if b := buildReply(req, kind, tok); b != nil {
@@ -200,11 +205,16 @@ func (s *server) serveTCP(l *net.TCPListener) {
 				}
 				s.mu.Lock()
 				kind, tok, onProbe := s.tkind, s.tokT, s.onProbe
+				closeNow := s.closeFirst
+				s.closeFirst = false
 				s.mu.Unlock()
-				if req.Question[0].Name == probeName && onProbe != nil {
+				if closeNow {
+					return
+				}
+				if isProbeName(req.Question[0].Name) && onProbe != nil {
 					onProbe()
 				}
-				if kind == "eof" {
+				if b, _ := kindParts(kind); b == "eof" {
 					return
 				}
 				if rb := buildReply(req, kind, tok); rb != nil {
@@ -230,6 +240,8 @@ func (s *server) serveTCP(l *net.TCPListener) {
 //	       net (socket closed)   dr (silently dropped)        eof (TCP: close after the request)
 //	mods   tc (TC bit)  sf nx rf (rcode SERVFAIL / NXDOMAIN / REFUSED)  na (no answer records)
 //	       aa (AA bit)  qr (QR bit cleared)  op (opcode NOTIFY)
+//	       c1 (TCP only: the first connection carrying the request is closed without an
+//	       answer, the next one is served: what a stale pooled connection looks like)
 //
 // "tc" and "sf" alone are the legacy spellings of "ok+tc" and "ok+sf".
 func kindParts(kind string) (base string, mods []string) {
@@ -343,6 +355,8 @@ func buildReply(req *dns.Msg, kind string, tok int) []byte {
 			resp.Response = false
 		case "op":
 			resp.Opcode = dns.OpcodeNotify
+		case "c1":
+			// handled by the TCP server: the first connection is closed
 		default:
 			panic("c17: unknown wire modifier " + m + " in " + kind)
 		}
@@ -356,10 +370,15 @@ func buildReply(req *dns.Msg, kind string, tok int) []byte {
 }
 
 // modelWire maps a scripted behaviour to the model's wire vocabulary: the base
-// plus the modifiers the model's Msg has a field for (tc; na makes the token 0).
-// Rcode, AA, QR and opcode have no counterpart in the model, which thereby
-// claims that they have no influence on what Exchange does.
+// plus the modifiers the model's Msg has a field for (tc; na makes the token 0;
+// sf nx rf set the RCODE, which only the health probe looks at).  AA, QR and
+// opcode have no counterpart in the model, which thereby claims that they have
+// no influence on what Exchange does.
 func modelWire(kind string) string {
+	if kindHas(kind, "c1") {
+		// first attempt: EOF; second attempt on a fresh connection: the rest
+		return "eof>" + modelWire(strings.Replace(kind, "+c1", "", 1))
+	}
 	base, mods := kindParts(kind)
 	switch base {
 	case "dr":
@@ -370,7 +389,7 @@ func modelWire(kind string) string {
 		return base
 	}
 	out := base
-	for _, m := range []string{"tc", "na"} {
+	for _, m := range []string{"tc", "na", "sf", "nx", "rf"} {
 		for _, x := range mods {
 			if x == m {
 				out += "+" + m
@@ -458,7 +477,9 @@ func plainCampaign(o *hlib.Opts, r *hlib.Result, m *hlib.Model) {
 	type row struct {
 		line, obs, sig, what string
 	}
-	eval := func(c pcase, uk, tk string) row {
+	var evalOn func(srv *server, ups []*forward.UpstreamPlain, c pcase, uk, tk string) row
+	eval := func(c pcase, uk, tk string) row { return evalOn(srv, ups, c, uk, tk) }
+	evalOn = func(srv *server, ups []*forward.UpstreamPlain, c pcase, uk, tk string) row {
 		srv.set(uk, tk, 1, 2)
 		req := &dns.Msg{}
 		req.SetQuestion(c.name, dns.TypeA)
@@ -466,6 +487,9 @@ func plainCampaign(o *hlib.Opts, r *hlib.Result, m *hlib.Model) {
 		resp, nw, err := ups[c.net].Exchange(context.Background(), req)
 		var ne net.Error
 		got := "other"
+		if os.Getenv("C17_DEBUG") != "" && err != nil {
+			fmt.Fprintf(os.Stderr, "DEBUG %s %s %s: %v\n", netNames[c.net], uk, tk, err)
+		}
 		switch {
 		case err == nil && resp != nil:
 			got = fmt.Sprintf("ok%d", respTokAny(resp))
@@ -478,7 +502,8 @@ func plainCampaign(o *hlib.Opts, r *hlib.Result, m *hlib.Model) {
 		}
 		rw := row{
 			line: fmt.Sprintf("x %s %s %s", netNames[c.net], modelWire(uk), modelWire(tk)),
-			obs:  got + " tcp=" + b2s(nw == forward.NetworkTCP),
+			obs: got + " tcp=" + b2s(nw == forward.NetworkTCP) +
+				" probe=" + b2s(err == nil && resp != nil && resp.Rcode == dns.RcodeSuccess),
 		}
 		// Property oracle, clause e: an accepted reply is one that matches.  First
 		// on the returned message itself, then on what the server was scripted
@@ -527,6 +552,9 @@ func plainCampaign(o *hlib.Opts, r *hlib.Result, m *hlib.Model) {
 	}
 
 	var lines, obs []string
+	// rerun[i] evaluates the case of lines[i] once more (a disagreement must
+	// reproduce: under load a live server can look like a timed-out one).
+	var rerun []func() row
 	for _, c := range cases {
 		uk, tk := c.uk, c.tk
 		// A silent drop costs a timeout: use it sparingly.
@@ -563,13 +591,76 @@ func plainCampaign(o *hlib.Opts, r *hlib.Result, m *hlib.Model) {
 		}
 		lines = append(lines, rw.line)
 		obs = append(obs, rw.obs)
+		{
+			c, uk, tk := c, uk, tk
+			rerun = append(rerun, func() row { return eval(c, uk, tk) })
+		}
 		r.Case(rw.line, !strings.HasPrefix(rw.obs, "ok1 "))
 		r.Count("plain." + netNames[c.net] + "." + strings.TrimRight(strings.Fields(rw.obs)[0], "0123456789"))
+	}
+	// The retry on a fresh connection, deterministically: a server of its own that
+	// never closes its sockets, so that every pooled connection is alive; "c1"
+	// closes the first connection that carries the request.
+	{
+		srv2 := newServer(rng)
+		ups2 := make([]*forward.UpstreamPlain, 3)
+		for i, nw := range nets {
+			ups2[i] = forward.NewUpstreamPlain(&forward.UpstreamPlainConfig{Network: nw, Address: srv2.addr(), Timeout: upsTimeout})
+		}
+		tks := []string{"ok", "ok+c1", "ok+c1", "cs+c1", "id+c1", "eof", "eof+c1", "ok+c1+sf", "nm+c1+tc", "ok", "ok+c1+na", "bad+c1", "q2+c1"}
+		uks := []string{"bad", "id", "ok+tc", "ok", "nm+tc"}
+		rounds := 3
+		if o.Thorough() {
+			rounds = 20
+		}
+		for k := 0; k < rounds*len(tks); k++ {
+			tk := tks[rng.IntN(len(tks))]
+			if k < len(tks) {
+				tk = tks[k]
+			}
+			c := pcase{net: []int{2, 0}[rng.IntN(2)], name: names[rng.IntN(len(names))]}
+			uk := uks[rng.IntN(len(uks))]
+			rw := evalOn(srv2, ups2, c, uk, tk)
+			if rw.sig != "" {
+				r.Violate(rw.sig, rw.what, map[string]any{"campaign": "plain-retry", "net": netNames[c.net], "udp": uk, "tcp": tk, "name": c.name})
+			}
+			// The reply that arrives on the second connection must be used.
+			if viaTCP := c.net == 2 || uk != "ok"; viaTCP && kindMatches(tk) && !strings.HasPrefix(rw.obs, "ok") {
+				r.Violate("reply-on-fresh-connection-discarded",
+					fmt.Sprintf("%s upstream, tcp scripted %q: the upstream answered on the connection opened after the first one was closed, but Exchange gave %s", netNames[c.net], tk, rw.obs),
+					map[string]any{"campaign": "plain-retry", "net": netNames[c.net], "udp": uk, "tcp": tk, "name": c.name})
+			}
+			lines = append(lines, rw.line)
+			obs = append(obs, rw.obs)
+			{
+				c, uk, tk := c, uk, tk
+				rerun = append(rerun, func() row { return evalOn(srv2, ups2, c, uk, tk) })
+			}
+			r.Case("retry:"+rw.line, true)
+			if kindHas(tk, "c1") {
+				r.Count("plain.retry." + strings.TrimRight(strings.Fields(rw.obs)[0], "0123456789"))
+			}
+		}
+		defer func() {
+			for _, u := range ups2 {
+				_ = u.Close()
+			}
+			srv2.close()
+		}()
 	}
 	m.ResetLog()
 	answers := m.Batch(lines)
 	for i := range lines {
 		if answers[i] != obs[i] {
+			again := false
+			for try := 0; try < 2 && !again; try++ {
+				again = rerun[i]().obs == answers[i]
+			}
+			if again {
+				r.Count("plain.discarded_unreproducible")
+
+				continue
+			}
 			r.Disagree("plain", fmt.Sprintf("%q: implementation %q, model %q", lines[i], obs[i], answers[i]),
 				map[string]any{"campaign": "plain", "ops": []string{lines[i]}})
 
@@ -595,6 +686,7 @@ type sockWorld struct {
 
 	mu     sync.Mutex
 	log    []call
+	init   []call
 	byAddr map[string]call
 }
 
@@ -653,16 +745,32 @@ func newSockWorld(s *sched, pool []*server) *sockWorld {
 		w.byAddr[upsName(nw, srv.addr())] = call{fb: true, idx: i}
 		fc = append(fc, &forward.UpstreamPlainConfig{Network: nw, Address: srv.addr(), Timeout: upsTimeout})
 	}
+	var initDur time.Duration
+	if s.Init != nil {
+		// NewHandler's initial health check meets the servers behaving like s.Init.
+		w.arm(s.Init, nil, 0)
+		initDur = time.Minute
+	}
 	w.h = forward.NewHandler(&forward.HandlerConfig{
 		Logger:                     discard,
 		MetricsListener:            w,
-		HealthcheckDomainTmpl:      probeDomain,
+		HealthcheckDomainTmpl:      s.tmpl(),
 		UpstreamsAddresses:         mc,
 		FallbackAddresses:          fc,
 		HealthcheckBackoffDuration: time.Duration(s.Backoff) * tick,
+		HealthcheckInitDuration:    initDur,
 	})
+	w.init = w.takeLog()
 
 	return w
+}
+
+func (w *sockWorld) initLog() (l []call, ok bool) { return w.init, true }
+
+func (w *sockWorld) probeTok(idx int, beh string) string {
+	u, t := split(beh)
+
+	return fmt.Sprintf("w.%s.%s.%s", w.s.netOf(false, idx), modelWire(u), modelWire(t))
 }
 
 func (w *sockWorld) handler() *forward.Handler { return w.h }
@@ -822,7 +930,7 @@ func socketCampaign(o *hlib.Opts, r *hlib.Result, m *hlib.Model) {
 	}
 	qm, qf, pm := thin(sockQ), thin(sockFQ), thin(sockP)
 	for i := 0; i < n; i++ {
-		s := genSched(rng, qm, qf, pm, 3, 2, 12)
+		s := genSched(rng, qm, qf, pm, 3, 2, 12, false)
 		// A third of the schedules keep the default network everywhere, the
 		// others mix UDP-only, TCP-only and UDP-then-TCP upstreams.
 		if i%3 != 0 {
@@ -833,6 +941,14 @@ func socketCampaign(o *hlib.Opts, r *hlib.Result, m *hlib.Model) {
 				s.FbNet = append(s.FbNet, sockNets[rng.IntN(len(sockNets))])
 			}
 		}
+		// NewHandler's initial health check against the scripted servers, and the
+		// probe domain with a random label.
+		if rng.IntN(4) == 0 {
+			for u := 0; u < s.NMain; u++ {
+				s.Init = append(s.Init, pm[rng.IntN(len(pm))])
+			}
+		}
+		s.RandTmpl = rng.IntN(3) == 0
 		for u := 0; u < s.NMain; u++ {
 			r.Count("socket.main_net=" + s.netOf(false, u))
 		}
